@@ -181,11 +181,23 @@ package literals
 //@   ensures @one-of-the-invertible-operators: r0 == token.XOR || r0 == token.ADD || r0 == token.SUB
 //@ end
 
+//@ ghost pickN int
+//@ ghost pickDrawn bool
+
+//@ hookset pick
+//@ hook after (*math/rand.Rand).Intn(r, n) (v)
+//@   pickN = n
+//@   pickDrawn = true
+//@ end
+
 //@ func (*obfRand).pickObfuscator
 //@   property C05 C09
+//@   hooks pick
 //@   fact @init-Obfuscators: len(Obfuscators) > 0 && len(CheapObfuscators) > 0
-//@   requires or != nil
+//@   requires or != nil && !pickDrawn
 //@   may_panic when size < 8 || size > 2048
+//@   assigns ghost pickN, ghost pickDrawn
+//@   ensures @the-index-is-drawn-for-the-table-it-indexes: pickDrawn ==> pickN == ite(size <= MaxSizeExpensive, len(Obfuscators), len(CheapObfuscators))
 //@ end
 
 // ---- C05: the simple obfuscator: every byte is encoded with the key byte of the same index and
